@@ -51,9 +51,9 @@ class Ctx:
         return random.Random(f'{self.seed}/{self.pid}/{name}')
 
     def count(self, engine, evaluations, nontrivial, samples=(), dist=None, exhaustive=None):
-        e = self.cov['engines'].setdefault(engine, {'evaluations': 0, 'distinct_nontrivial': 0})
-        e['evaluations'] += evaluations
-        e['distinct_nontrivial'] += nontrivial
+        e = self.cov['engines'].setdefault(engine, {})
+        e['evaluations'] = e.get('evaluations', 0) + evaluations
+        e['distinct_nontrivial'] = e.get('distinct_nontrivial', 0) + nontrivial
         if dist:
             e.setdefault('distribution', {}).update(dist)
         if exhaustive is not None:
